@@ -91,11 +91,6 @@ def hypOK (es : List Entry) : Bool :=
   decide (2 ≤ es.length) && sums.all (fun s => decide (0 < s) && decide (s + pad < two64)) &&
     decide (sums.eraseDups.length = sums.length)
 
-/-- The index whose binary digits are the parity bits the verification loop reads. -/
-def canonIndex : Nat → Int → Nat
-  | 0, _ => 0
-  | l + 1, idx => (if goOdd idx then 1 else 0) + 2 * canonIndex l (Int.tdiv idx 2)
-
 /-- First `n` in `[lo, lo+count)` with `levels n ≠ v`. -/
 def firstLevelsMismatch (v : Nat) : Nat → Nat → Option Nat
   | 0, _ => none
@@ -154,7 +149,7 @@ def step (s : St) (pre post : List String) : St × Verdict :=
       -- is this the committed proof (possibly up to the pre-upgrade index bits)?
       let cix : Option Nat :=
         if pb then (if 0 ≤ ix ∧ ix.toNat < nextPowerOfTwo n then some ix.toNat else none)
-        else some (canonIndex nl ix)
+        else some (pathIndex nl ix)
       let (s, committedAt) : St × Option (Nat × MerkleProof) :=
         match cix with
         | none => (s, none)
